@@ -90,7 +90,7 @@ SYSTEMATIC = {
     'C02': {'outcome-sequences-systematic': 46416},
     'C06': {'single-fault-lattice': 422400},
     'C09': {'operation-pairs-systematic': 169 * 169},
-    'C10': {'small-spans-systematic': 14040},
+    'C10': {'small-spans-systematic': 15120},
     'C12': {'small-reindex-systematic': 20160},
 }
 
